@@ -283,7 +283,9 @@ class Router:
         Ctx.cur_segments = None if bad_path else rq.segs
         method = Opaque('reqmethod', rq)
         ver = ex.some(Ref(Cell(rq.v.adt()))) if rq.v else ex.none()
-        return ex.call_fn(self.F_lookup, [Ref(rc), Ref(Cell(method)), Opaque('inputpath'), ver])
+        # InputPath(&str): the raw request path is an opaque text of any length (its segmentation is Ctx.cur_segments)
+        path = ex.mk_struct('InputPath', **{'0': Ref(Cell(SymStr(z3.Const('request_path_text', StrSort))))})
+        return ex.call_fn(self.F_lookup, [Ref(rc), Ref(Cell(method)), path, ver])
 
 
 def describe_result(ex, res):
